@@ -404,6 +404,47 @@ func init() {
 		},
 	})
 
+	// S5: the channels-target-reached callback racing with Close.
+	vexp.Register(&vexp.Scenario{
+		Name: "c19.S5.channels-reached-vs-close", Prop: "C19", MaxSteps: 100000,
+		Bounds: func(thorough bool) vexp.Bounds {
+			if thorough {
+				return vexp.Bounds{P: 2, F: 1, E: 0}
+			}
+			return vexp.Bounds{P: 1, F: 1, E: 0}
+		},
+		Configs: func(thorough bool) []map[string]int {
+			return []map[string]int{{"maxconns": 1, "target": 1}, {"maxconns": 2, "target": 1}, {"maxconns": 1, "target": 1, "order": 1}, {"maxconns": 2, "target": 1, "order": 1}}
+		},
+		Doc: "connected on-demand client; the connection reports 'channel target reached' (the callback that opens further connections up to the maximum) || Close, and the callback arriving right after Close returned: never more simultaneous connections than the maximum, nothing left open, flags consistent",
+		Body: func(x *vexp.Ctx) {
+			c, vc := newVClient(x, ClientMode_OnDemand, nil, false)
+			ch, st := c.Channel(async.NoContext())
+			if !st.OK() || !c19echo(ch) {
+				x.Fail("first call fails on a reachable server", "%v", st)
+				return
+			}
+			vsched.WaitIdle("quiesce")
+			conn0 := vc.conns[0]
+			aDone, bDone := false, false
+			if x.P("order", 0) == 1 {
+				// Close returns, then the callback of the still-running old connection arrives
+				c.Close()
+				c.onConnChannelsReached(conn0)
+				aDone, bDone = true, true
+			} else {
+				vsched.GoNamed("callback", func() { c.onConnChannelsReached(conn0); aDone = true })
+				vsched.GoNamed("closer", func() { c.Close(); bDone = true })
+			}
+			vsched.Join("callback and Close returned", func() bool { return aDone && bDone })
+			vsched.WaitIdle("quiesce")
+			ch.Free()
+			vsched.WaitIdle("quiesce")
+			c19quiescent(x, c, vc, "after Close")
+			x.Outcome = fmt.Sprintf("dials=%d maxLive=%d", vc.dials, vc.maxLive)
+		},
+	})
+
 	// function level: the back-off for every attempt number
 	vexp.Register(&vexp.Scenario{
 		Name: "c19.F.reconnect-timeout-all-attempts", Prop: "C19",
